@@ -113,10 +113,15 @@ Definition orders_pos (G : mgraph) : Prop := forall u v o, In (u, v, o) (gedges 
 Definition std_consistent (I : its) : Prop :=
   forall u v x, In (u, v, x) (gedges I) -> e_std x = e_G x - e_H x.
 
-(** executable versions (used by the run function to report which stream a case belongs to) *)
-Definition same_nodesb (G H : mgraph) : bool :=
-  forallb (fun n => mem n (node_ids H)) (node_ids G) && forallb (fun n => mem n (node_ids G)) (node_ids H).
-Definition orders_posb (G : mgraph) : bool := forallb (fun e => 0 <? snd e) (gedges G).
+(** "the same graph" for the round trip: same atoms with the same element, aromaticity, hydrogen count and
+    charge, and the same bonds with the same orders ('neighbors' is dropped by its_decompose and is not part
+    of the property; atom_map is covered by [amap_id]). *)
+Definition sel4 (a : gnode) : N * bool * Z * Z := (g_el a, g_arom a, g_hc a, g_ch a).
+Definition geq_sel (G' G : mgraph) : Prop :=
+  (forall n, option_map sel4 (label G' n) = option_map sel4 (label G n)) /\
+  (forall u v, adj G' u v = adj G u v).
+(** every atom_map equals the node id *)
+Definition amap_id (G : mgraph) : Prop := forall n a, label G n = Some a -> g_amap a = Z.of_N n.
 
 (** ** Relabelling of node ids that also renumbers the atom maps (its_decompose writes atom_map = node id) *)
 Definition set_amap (g : mgraph) : mgraph :=
@@ -135,6 +140,8 @@ Section RSMI.
   Definition its_to_rsmi (I : its) : option rsmi :=
     let '(g, h) := its_decompose I in write g h I.
 End RSMI.
+Arguments rsmi_to_its [rsmi] parse r.
+Arguments its_to_rsmi [rsmi] write I.
 
 (** ** Observables (DESIGN Appendix B, C01) *)
 Definition tZ (z : Z) : tok := I z.
